@@ -431,7 +431,8 @@ func runReplay(p *Program, fn *ssa.Function, argSets [][]string, mode string, po
 	// a panic counts as a reproduction only if the obligation's source line is on the stack
 	want := ""
 	if pos != "" {
-		want = filepath.Base(pos)
+		parts := strings.Split(pos, " > ")
+		want = filepath.Base(parts[len(parts)-1])
 	}
 	lines := strings.Split(string(out), "\n")
 	hit := map[int]bool{}
